@@ -759,7 +759,7 @@ class Executor:
                         break
                 j -= 1
             head, inner = rhs[:j], rhs[j + 1:-1]
-            if j > 0 and "::" in head and self._balanced(inner):
+            if j > 0 and ("::" in head or re.match(r"^[A-Z]\w*(<.*>)?$", head)) and self._balanced(inner):
                 items = split_top(inner) if inner.strip() else []
                 if all(i.startswith(("copy ", "move ", "const ")) for i in items):
                     return Agg(self._enum_or_struct_name(head), self._variant_of(head),
